@@ -178,7 +178,12 @@ Definition task_step (fl : flags) (max : Z) (c : core) (k : task) : option (core
       | KLoad =>
           let d := match lookup f (disk c) with Some d => d | None => [] end in
           Some (c, mkTask (k_kind k) f d T3 None)
-      | KWrite => Some (mkCore (mem c) (futs c) (heap c) (aset f (k_data k) (disk c)), mkTask (k_kind k) f (k_data k) T3 None)
+      | KWrite =>
+          (* close() flushes the buffered payload at offset 0 of the descriptor opened at T1: the first
+             len(payload) bytes are overwritten, whatever another writer put beyond them stays *)
+          let cur := match lookup f (disk c) with Some d => d | None => [] end in
+          Some (mkCore (mem c) (futs c) (heap c) (aset f (k_data k ++ skipn (length (k_data k)) cur) (disk c)),
+                mkTask (k_kind k) f (k_data k) T3 None)
       end
   | T3 =>
       match ufm fl max f (zlen (k_data k)) c with
